@@ -82,7 +82,58 @@ W_INPUT = {'steps': [D(['clear', 39]), D(['let', sv('B$'), lit('x')]), D(['let',
 # value's pointer before view_buffer dimensioned the array; when that collected garbage the element got the old address
 W_D10E = {'steps': [D(['clear', 110]), P(['let', sv('A$'), cat(lit('q' * 60), sv('B$'))]), P(['let', sv('A$'), lit('')]),
                     P(['input', [['av', 'S$', 5]], ['hello']]), P(['let', sv('B$'), ['av', 'S$', 5]])]}
-WITNESSES = [W_D16, W_D15, W_D10A, W_D10B, W_D10C, W_D10D_ALIAS, W_D10D_OVERFLOW, W_RECURSION, W_INPUT, W_D10E]
+# seeded C10f: SWAP read the first operand's pointer before the second operand's array was dimensioned (which collects)
+W_SWAPGC = {'steps': [D(['clear', 105]), P(['let', sv('C$'), cat(lit('q' * 50), sv('B$'))]),
+                      P(['let', sv('X$'), cat(lit('hell'), lit('o'))]), P(['let', sv('C$'), lit('')]),
+                      P(['swap', sv('X$'), ['av', 'S$', 5]]), P(['let', sv('B$'), ['av', 'S$', 5]]),
+                      P(['let', sv('Q!'), FRE_S]), P(['let', sv('A$'), ['av', 'S$', 5]])]}
+
+
+def pressure_case(rng):
+    """first touch of a not yet dimensioned array (implicit DIM of 11 elements = 42 bytes) by every kind of statement,
+    with free memory around that size, live strings low in string space and garbage above them, so that the
+    dimensioning collects and moves the strings the statement is working on"""
+    glen = rng.choice([30, 40, 50, 60])
+    live = [(nm, rng.choice([1, 3, 5, 9])) for nm in rng.sample(['X$', 'Y$', 'A$', 'B$'], rng.choice([1, 2, 3]))]
+    # free after the set-up = k - scalars (7 each: C$ + live) - live bytes; aim at 42 +- 12 before the collection
+    used = 7 * (1 + len(live)) + glen + 1 + sum(n + 1 for _, n in live)
+    k = used + 42 + rng.choice([-12, -6, -3, -1, 0, 0, 1, 2, 5, 12])
+    steps = [D(['clear', max(k, 30)]), P(['let', sv('C$'), cat(lit('q' * glen), lit('r'))])]
+    steps += [P(['let', sv(nm), cat(lit(nm[0].lower() * n), lit('.'))]) for nm, n in live]
+    arr = rng.choice(['S$', 'T$'])
+    if rng.random() < 0.3:
+        # dimensioned, used and erased again: the next touch dimensions it once more
+        steps.insert(1, P(['dim', arr, rng.choice([1, 3])]))
+        steps.append(P(['erase', arr]))
+    steps.append(P(['let', sv('C$'), lit('')]))
+    el = ['av', arr, rng.choice([0, 3, 5, 10])]
+    v = sv(live[0][0])
+    kind = rng.choice(['swap', 'swap', 'swapr', 'let', 'letcat', 'input', 'lset', 'mid', 'swapel'])
+    direct = rng.random() < 0.25
+    mk = D if direct else P
+    if kind == 'swap':
+        steps.append(mk(['swap', v, el]))
+    elif kind == 'swapr':
+        steps.append(mk(['swap', el, v]))
+    elif kind == 'swapel':
+        steps.append(mk(['swap', ['av', arr, 1], ['av', 'T$' if arr == 'S$' else 'S$', 2]]))
+    elif kind == 'let':
+        steps.append(mk(['let', el, v]))
+    elif kind == 'letcat':
+        steps.append(mk(['let', el, cat(v, lit('+'))]))
+    elif kind == 'input':
+        steps.append(mk(['input', [el, sv('C$')], ['typed', 'w']]))
+    elif kind == 'lset':
+        steps.append(mk(['lset', el, v]))
+    else:
+        steps.append(mk(['midset', el, ['num', 1, '%'], None, v]))
+    # read everything back, before and after an explicit collection
+    reads = [P(['let', sv('C$'), el])] + [P(['let', sv('C$'), sv(nm)]) for nm, _ in live]
+    steps += reads + [P(['let', sv('Q!'), FRE_S])] + reads
+    return {'steps': steps}
+
+
+WITNESSES = [W_SWAPGC, W_D16, W_D15, W_D10A, W_D10B, W_D10C, W_D10D_ALIAS, W_D10D_OVERFLOW, W_RECURSION, W_INPUT, W_D10E]
 
 
 class C10(core.Check):
@@ -138,6 +189,9 @@ class C10(core.Check):
                 ns = 120
             else:
                 ns = rng.choice([5, 10, 20, 30, 60])
+            if i % 6 == 2:
+                out.append(pressure_case(rng))
+                continue
             if i % 6 == 5:
                 # INPUT of new variables at nearly exhausted string space with garbage present
                 words = [''.join(rng.choice('abcdefgh0123') for _ in range(rng.choice([1, 2, 4, 8, 12])))
